@@ -1,11 +1,50 @@
 # Table consumed by gen_manifest.py
 NOT_APPLICABLE = {}
-NOTES = ("All checks are bounded exhaustive exploration of the real rivia code (see DESIGN.md). "
+NOTES = ("All checks are bounded exhaustive exploration of the real rivia code (see DESIGN.md): explicit-state BFS over the real Memfs (E1), "
+         "exhaustive critical-section schedule enumeration (E2), exhaustive input enumeration (E3), exhaustive tree x call enumeration on both backends in "
+         "single-threaded worker processes on tmpfs sandboxes (E4) and exhaustive environment cross-products (E5). "
          "./check <id> --tier quick|thorough [--replay f]; exit 0 held / 1 VIOLATION / 2 machinery. "
-         "Known genuine defects are listed in known_findings.jsonl and reported as KNOWN-FINDING lines.")
+         "Genuine defects found on the pinned tree were repaired by fix: commits in /repo or are listed in known_findings.jsonl (reported as KNOWN-FINDING lines).")
 ENGINES = [
- {"name": "E3 enum", "path": "harness/src/props", "serves_properties": ["C14"], "kind_free_text": "bounded exhaustive input enumeration of pure functions against executable reference definitions"},
+ {"name": "E1 space", "path": "harness/src/engines/space.rs", "serves_properties": ["C01", "C03", "C06", "C09", "C13", "C20"], "kind_free_text": "explicit-state breadth-first search over the real Memfs (deep-clone hook), RefFs reference model bound by an abstraction function on every transition"},
+ {"name": "E2 sched", "path": "harness/src/engines/sched.rs", "serves_properties": ["C04"], "kind_free_text": "stateless exhaustive enumeration of critical-section interleavings of real threads over one Memfs via lock-event hooks"},
+ {"name": "E3 enum", "path": "harness/src/props", "serves_properties": ["C12", "C14", "C15", "C16", "C19"], "kind_free_text": "bounded exhaustive input enumeration of pure functions against executable reference definitions"},
+ {"name": "E4 dual", "path": "harness/src/engines/{sandbox,workers}.rs", "serves_properties": ["C02", "C05", "C07", "C08", "C10", "C11"], "kind_free_text": "exhaustive tree x call enumeration on Memfs and on Stdfs in re-exec'd single-threaded worker processes with private tmpfs sandboxes"},
+ {"name": "E5 envx", "path": "harness/src/props/c17.rs, c18.rs", "serves_properties": ["C17", "C18"], "kind_free_text": "exhaustive environment configurations, each evaluated in worker processes with an explicit environment"},
 ]
+reg("C01", "E1 space", "model_checking", "explicit-state BFS to fixpoint over the real Memfs; every transition compared with a reference model through an abstraction function",
+    "Reachability fixpoint of the real Memfs from Memfs::new() under four call alphabets (structure incl. respelled paths, content, metadata, chain namespace); every (state, call) is executed on a deep clone and its result, error kind and resulting tree compared with RefFs (written from the trait docs); every query method x namespace path is evaluated in every state; failed single-target calls must leave the complete dump unchanged.",
+    "Trusts RefFs where docs are explicit (Either where silent), the dump hook's completeness, and a 128-bit state hash. Namespace bounded ({a,b} depth 2, chain depth 3, <=3/4 entries expanded).", "DESIGN.md §4 C01")
+reg("C03", "E1 space", "model_checking", "explicit-state BFS with hostile alphabets; structural invariants on the complete dump of every successor state",
+    "Same engine as C01 with alphabets widened by hostile arguments (through links, above the root, the root itself, empty paths, relative after the cwd vanished, moves/copies into the own subtree); invariants I1-I8 are evaluated on the complete dump after every successful and failed call; I6 (recursive listing = stored paths) in every state.",
+    "A malformed successor is reported and not expanded. Quiescent states after concurrent schedules are checked by C04's engine.", "DESIGN.md §4 C03")
+reg("C07", "E4 dual", "model_checking", "exhaustive enumeration of read/seek sequences and write chunk/flush/drop histories against std::io::Cursor / a byte-vector model, on both backends",
+    "All sequences up to length 4 (quick) / 6 (thorough) over a read/seek alphabet with out-of-range offsets are run step by step against std::io::Cursor on Memfs handles and (in worker processes) real Stdfs files; every chunking x flush pattern x drop point of write/append handles is checked against a byte-vector model after each flush and at drop.",
+    "std::io::Cursor and std::fs::File are the oracles; Stdfs on tmpfs (no short reads).", "DESIGN.md §4 C07")
+reg("C08", "E4 dual", "model_checking", "exhaustive tree x start x option cross-product; observed iterator sequence validated as a legal linearisation of a recursively computed expected walk",
+    "Every tree of a bounded family (names {a,b,c}, links incl. cycles/chains/dangling) x every start path x the full cross product of entries() options (1680 tuples incl. descriptor caps via hook) is traversed on the real iterator; the yielded multiset must be exact and the order a legal linearisation; listing helpers are checked against exists/is_dir/is_file and across backends.",
+    "Unsorted sibling order is free; following link chains only gets the weak checks; Stdfs half only on trees whose links resolve.", "DESIGN.md §4 C08")
+reg("C10", "E4 dual", "model_checking", "exhaustive (link position, target position, target kind, spelling) enumeration with follow-up transitions on both backends",
+    "All link/target position pairs up to depth 3 (quick) / 5 (thorough) x target kinds x 6 spellings; after symlink every clause of the statement is checked (readlink/readlink_abs laws, link exclusion, kind at creation, entry.follow laws), then remove/chmod/chown/re-symlink follow-ups from fresh copies with full-state diffs; Stdfs in root worker processes, cross-checked with std::fs::read_link.",
+    "Stdfs half runs as euid 0 on tmpfs; link-to-link only for link->file.", "DESIGN.md §4 C10")
+reg("C11", "E4 dual", "model_checking", "exhaustive grammar sweep (modes x clauses x kinds) against a reference mode calculator plus exhaustive tree x call enumeration with full dump diffs",
+    "All permission values (32 covering / 512) x all single clauses and ordered clause pairs of the documented grammar x entry kinds through chmod_b().sym().exec(); every malformed string up to length 4/5; all trees of a bounded family x every chmod/chown builder variant with a full before/after dump diff (exactly the selected entries changed, to exactly the requested value); is_exec/is_readonly vs mode in every state; Stdfs half as root on tmpfs.",
+    "ref_mode transcribes the documented grammar; failing recursive calls only constrain unselected entries (hash-order dependent partial results).", "DESIGN.md §4 C11")
 reg("C14", "E3 enum", "exploration", "bounded exhaustive input enumeration vs reference implementation (Go path.Clean transliteration)",
-    "Every string over {/,.,a,b} up to length 10 (quick) / 12 (thorough) and over a wider 6-symbol alphabet up to 6/8 is cleaned by rivia and by a transliteration of Go's path.Clean; equality, idempotence, absoluteness and non-emptiness are checked on each. Exhaustive within the bound, so any rule mis-ordering that needs <= 12 characters to show is found.",
+    "Every string over {/,.,a,b} up to length 10 (quick) / 12 (thorough) and over a wider 6-symbol alphabet up to 6/8 is cleaned by rivia and by a transliteration of Go's path.Clean; equality, idempotence, absoluteness and non-emptiness are checked on each.",
     "Trusts the Go transliteration (self-tested against Go's table) and std::path::Path::components; longer inputs only sampled.", "DESIGN.md §4 C14")
+reg("C15", "E3 enum", "exploration", "bounded exhaustive enumeration of strings and string pairs against string-level / Component-level laws",
+    "All strings up to length 6/7 and all pairs up to length 4 (plus bands) over {a,/,.,:,b,é,€}: every law of the statement (mash, trim_prefix/suffix, trim_ext/ext/name, dir/base, first/last splits, has*, trim_protocol incl. all case variants, concat, parse_paths) on the free-function and PathExt forms, under catch_unwind.",
+    "Laws compared at string level exactly as stated; longer strings only by the labelled random supplement.", "DESIGN.md §4 C15")
+reg("C16", "E3 enum", "exploration", "exhaustive enumeration of ordered pairs of clean absolute paths against the navigation law",
+    "All ordered pairs of clean absolute paths with <= 4 components over 3 names (14 641 pairs; thorough up to 9 components / 11.8M pairs): relative() must be '..'* then normal components, with the exact '..' count, and clean(base/result) == path.",
+    "go_clean is the cleaning oracle.", "DESIGN.md §4 C16")
+reg("C17", "E5 envx", "exploration", "exhaustive environment x template enumeration in worker processes against a reference expander",
+    "40 environments (HOME x V1 x V2) x all templates up to a token bound (1.4M quick / 9.2M thorough) evaluated in single-threaded worker processes with explicit environments; results compared with a string-level reference expander that returns every acceptable outcome where the statement is ambiguous; fresh-process self-check of every 2nd environment.",
+    "Ambiguous forms (~text, unclosed ${, stray }) accept several outcomes; abs() only compared for Ok/Err.", "DESIGN.md §4 C17")
+reg("C18", "E5 envx", "exploration", "exhaustive cross-product of environment settings evaluated in worker processes against a transcription of the statement",
+    "Full cross product of HOME/XDG_* settings (91 125 configurations quick, 1.4M thorough) x all nine lookup functions, config_dir over every subset of candidate directories on Memfs and Stdfs, getrids over uid/gid/SUDO_* values; distinct values per variable so a wrong-variable read is detected; fresh-process self-checks.",
+    "Empty XDG_*_HOME may be treated as set or unset (statement vs XDG spec).", "DESIGN.md §4 C18")
+reg("C19", "E3 enum", "exploration", "exhaustive enumeration of sequence lengths x index pairs, strings, and defer control-flow shapes against plain definitions",
+    "drop/slice on lengths 0..=8 x indices -10..=10 on four iterator kinds against Vec indexing; first/last/single/some/consume; size/to_bool/trim_suffix on all strings to length 5/7; Option::has; take_while_p on all sequences to length 6/9 x predicates x drive modes; 3.5M (quick) real defer/defer! programs over all small control-flow shapes with an event log compared to a scope-exit model.",
+    "slice precondition left >= -len respected.", "DESIGN.md §4 C19")
